@@ -301,7 +301,7 @@ func runC14(c *hc.Ctx) error {
 	var buf bufferedCases
 	c.Sum.Rule = "tile matrix sets = the built-in documents and synthetic exact quadtrees (tile width 1/256/512, both corners, first id 0 or 2); unperturbed (all id lists incl. the real binary for the built-in sets) and with every single-field perturbation (matrix width/height, tile width/height, origin by 1 ulp / 1e-9 / 1 unit, corner, cell size at ratios {1, 1.98, 1.99 -/+ 1ulp, 1.9900001, 2 -/+ 1e-9, 2.0099999, 2.01 -/+ 1 ulp, 2.02, 3} to BOTH neighbours, zero and negative, deletion, variable widths incl. the empty non-nil slice, id strings) at the first, second, a random and the last level (thorough: every level), plus random pairs of perturbations; distinct = distinct (set, perturbations, ids); non-trivial = perturbed or accepted"
 	c.Sum.Oracle = "on the implementation (pointindex.IsQuadTree, DeviationStats, the texel binary; panics recovered): accepted => the quadtree conditions recomputed from the struct with exact rationals hold (ratio cases within 1e-12 of 1.99/2.01 make no claim); a perturbation breaking exactly one condition of an accepted set => rejected with an error; never a panic; for accepted unperturbed sets with a 1x1 root the pixel size reported by DeviationStats (int64 reso) equals cellSize(z)/16 within 1e-7 relative (built-in documents halve only to ~3e-8) resp. exactly to 1e-10 units (synthetic); the binary's verdict equals the library composite"
-	c.Sum.Partial = "float clause: the cell size ratio condition is proved as the binary64 test the code performs (ratio_ok: lo <= fl(prev/cur) <= hi with the regenerated literals), not as a statement about the exact quotient; validate_total carries the level bound d + log2(tile width) + 4 < 64 (every built-in set satisfies it; a 60-level set does not: C14_validate_total_level_bound_needed)"
+	c.Sum.Partial = "float clause: the ratio condition is the binary64 test the code performs; its meaning for the exact quotient of the two float64 cell sizes is proved with a slack of 2^-50 (C14_ratio_exact: within [1.99 - 2^-50, 2.01 + 2^-50]); validate_total carries the level bound d + log2(tile width) + 4 < 64 (every built-in set satisfies it; a 60-level set does not: C14_validate_total_level_bound_needed)"
 	c.Sum.TrustedBase = []string{
 		"float64 division and comparison in IsQuadTree modelled bit-exactly through f64 (round to nearest even of the exact quotient of the two binary64 values)",
 		"uint(math.Log2(float64(tileWidth))) modelled as floor(log2) (exact for tile widths below 2^47); uint(-Inf) = 2^63 and 1<<n = 0 for n >= 64 as compiled for amd64",
